@@ -123,6 +123,7 @@ theorem pending_closedB (N : Nat) : ClosedB (fun x => pendingTotal x ≤ N) wher
   siteCnt := fun _ _ h => h
   emitInj := fun _ _ _ _ _ h => h
   clock := fun _ _ h => h
+  lastFlush := fun _ _ h => h
   gone := fun _ h => h
   refresh := fun s h => by rw [pendingTotal_of_bq (bq_refresh s)]; exact h
   allEmpty := fun s h => by rw [pendingTotal_of_bq (bq_allEmpty s)]; exact h
@@ -162,8 +163,8 @@ theorem exitLoop_pending_le (tick : Nat) : ∀ (fuel : Nat) (s : BSt),
     rw [exitLoop_succ]
     split
     · unfold exitFinal
-      have e : bq (cleanupLoggers (runInj []) (cleanupContexts (flushSinks (checkFailures (runInj []) (allEmpty s).1)))) = bq s := by
-        rw [bq_cleanupLoggers _ runInj_nil_quiet9, bq_cleanupContexts, bq_flushSinks, bq_checkFailures_nil, bq_allEmpty]
+      have e : bq (cleanupLoggers (runInj []) (preEraseFlush (cleanupContexts (flushSinks (checkFailures (runInj []) (allEmpty s).1))))) = bq s := by
+        rw [bq_cleanupLoggers _ runInj_nil_quiet9, bq_preEraseFlush, bq_cleanupContexts, bq_flushSinks, bq_checkFailures_nil, bq_allEmpty]
       rw [pendingTotal_of_bq e]
       exact Nat.le_refl _
     · exact Nat.le_trans (exitLoop_pending_le tick fuel _) (exitBody_pending_le tick s)
